@@ -704,3 +704,428 @@ Proof.
   change (ctx_extend (ctx_extend [] c) []) with (ctx_extend [] c).
   rewrite (ctx_extend_get c [] n Hd). destruct (ctx_get c n); reflexivity.
 Qed.
+
+(* ------------------------------------------------------------------ component table by priority *)
+
+Section Prio.
+Context {A : Type}.
+Notation entry := (str * nat * A)%type.
+
+Lemma ct_get_remove_same : forall n (t : ctable A), ct_get (ct_remove n t) n = None.
+Proof.
+  intros n. induction t as [|[n' x] t IH]; cbn; [reflexivity|].
+  destruct (str_eqb n' n) eqn:E; [exact IH|]. cbn. rewrite E. exact IH.
+Qed.
+
+Lemma ct_get_remove_other : forall n n' (t : ctable A), n <> n' -> ct_get (ct_remove n t) n' = ct_get t n'.
+Proof.
+  intros n n' t Hne. induction t as [|[n0 x] t IH]; cbn; [reflexivity|].
+  destruct (str_eqb n0 n) eqn:E.
+  - apply str_eqb_eq in E. subst n0.
+    destruct (str_eqb n n') eqn:E2; [apply str_eqb_eq in E2; contradiction|]. exact IH.
+  - cbn. destruct (str_eqb n0 n'); [reflexivity|exact IH].
+Qed.
+
+Lemma ct_get_insert_same : forall n x (t : ctable A), ct_get (ct_insert n x t) n = Some x.
+Proof. intros. unfold ct_insert. cbn. rewrite str_eqb_refl. reflexivity. Qed.
+
+Lemma ct_get_insert_other : forall n x (t : ctable A) n', n <> n' -> ct_get (ct_insert n x t) n' = ct_get t n'.
+Proof.
+  intros n x t n' Hne. unfold ct_insert. cbn.
+  destruct (str_eqb n n') eqn:E; [apply str_eqb_eq in E; contradiction|].
+  apply ct_get_remove_other. exact Hne.
+Qed.
+
+Definition count_np (n : str) (p : nat) (l : list entry) : nat :=
+  length (filter (fun e : entry => str_eqb (fst (fst e)) n && Nat.eqb (snd (fst e)) p) l).
+
+Lemma count_np_cons : forall n p n0 p0 a0 (l : list entry),
+  count_np n p ((n0, p0, a0) :: l) = ((if str_eqb n0 n && Nat.eqb p0 p then 1 else 0) + count_np n p l)%nat.
+Proof.
+  intros. unfold count_np. cbn [filter fst snd]. destruct (str_eqb n0 n && Nat.eqb p0 p); reflexivity.
+Qed.
+
+Lemma count_np_app : forall n p (l1 l2 : list entry),
+  count_np n p (l1 ++ l2) = (count_np n p l1 + count_np n p l2)%nat.
+Proof. intros. unfold count_np. rewrite filter_app, app_length. reflexivity. Qed.
+
+Lemma count_np_zero : forall n p (l : list entry), (forall a, ~ In (n, p, a) l) -> count_np n p l = 0%nat.
+Proof.
+  intros n p. induction l as [|[[n0 p0] a0] l IH]; intros H; [reflexivity|].
+  rewrite count_np_cons. destruct (str_eqb n0 n && Nat.eqb p0 p) eqn:E.
+  - apply andb_true_iff in E. destruct E as [E1 E2]. apply str_eqb_eq in E1. apply Nat.eqb_eq in E2.
+    subst. exfalso. apply (H a0). left. reflexivity.
+  - cbn. apply IH. intros a Hin. apply (H a). right. exact Hin.
+Qed.
+
+Lemma count_np_in : forall n p a (l : list entry), In (n, p, a) l -> (1 <= count_np n p l)%nat.
+Proof.
+  intros n p a. induction l as [|[[n0 p0] a0] l IH]; intros H; [contradiction|].
+  rewrite count_np_cons. destruct H as [H|H].
+  - inversion H; subst. rewrite str_eqb_refl, Nat.eqb_refl. cbn. lia.
+  - specialize (IH H). lia.
+Qed.
+
+Lemma count_np_perm : forall n p (l l' : list entry), Permutation l l' -> count_np n p l = count_np n p l'.
+Proof.
+  intros n p l l' H. induction H as [|[[n0 p0] a0] l l' H IH|[[n0 p0] a0] [[n1 p1] a1] l|l l' l'' H1 IH1 H2 IH2].
+  - reflexivity.
+  - rewrite !count_np_cons, IH. reflexivity.
+  - rewrite !count_np_cons. lia.
+  - congruence.
+Qed.
+
+Lemma count_one_unique : forall n p a a' (l : list entry),
+  count_np n p l = 1%nat -> In (n, p, a) l -> In (n, p, a') l -> a = a'.
+Proof.
+  intros n p a a' l Hc H1 H2. apply in_split in H1. destruct H1 as [l1 [l2 E]]. subst l.
+  rewrite count_np_app, count_np_cons, str_eqb_refl, Nat.eqb_refl in Hc. cbn [andb] in Hc.
+  apply in_app_or in H2. destruct H2 as [H2|[H2|H2]].
+  - apply count_np_in in H2. lia.
+  - inversion H2. reflexivity.
+  - apply count_np_in in H2. lia.
+Qed.
+
+(* what the table says about the entries met so far *)
+Definition tbl_inv (done : list entry) (t : ctable A) : Prop :=
+  forall n, match ct_get t n with
+            | None => forall p a, ~ In (n, p, a) done
+            | Some (a, p) =>
+                In (n, p, a) done /\ (forall p' a', In (n, p', a') done -> (p <= p')%nat) /\
+                count_np n p done = 1%nat
+            end.
+
+Lemma tbl_inv_perm : forall d d' t, Permutation d d' -> tbl_inv d t -> tbl_inv d' t.
+Proof.
+  intros d d' t P H n. specialize (H n). destruct (ct_get t n) as [[a p]|].
+  - destruct H as [H1 [H2 H3]]. split; [eapply Permutation_in; eassumption|]. split.
+    + intros p' a' Hin. apply (H2 p' a'). eapply Permutation_in; [apply Permutation_sym; exact P|exact Hin].
+    + rewrite <- (count_np_perm n p d d' P). exact H3.
+  - intros p a Hin. apply (H p a). eapply Permutation_in; [apply Permutation_sym; exact P|exact Hin].
+Qed.
+
+Lemma select_step_inv : forall done t e t',
+  tbl_inv done t -> select_step t e = ROk t' -> tbl_inv (e :: done) t'.
+Proof.
+  intros done t [[n0 p0] a0] t' Hinv Hs n. unfold select_step in Hs.
+  destruct (str_eq_dec n0 n) as [En|En].
+  - subst n0. specialize (Hinv n). destruct (ct_get t n) as [[a p]|] eqn:G.
+    + destruct Hinv as [Hin [Hmin Hc]]. destruct (p0 <? p)%nat eqn:L1.
+      * apply Nat.ltb_lt in L1. inversion Hs; subst t'. rewrite ct_get_insert_same.
+        split; [left; reflexivity|]. split.
+        -- intros p' a' [E|H']; [inversion E; lia|]. specialize (Hmin _ _ H'). lia.
+        -- rewrite count_np_cons, str_eqb_refl, Nat.eqb_refl. cbn [andb].
+           rewrite count_np_zero; [reflexivity|]. intros a' H'. specialize (Hmin _ _ H'). lia.
+      * destruct (p <? p0)%nat eqn:L2; [|discriminate]. apply Nat.ltb_lt in L2.
+        inversion Hs; subst t'. rewrite G. split; [right; exact Hin|]. split.
+        -- intros p' a' [E|H']; [inversion E; lia|]. apply (Hmin _ _ H').
+        -- rewrite count_np_cons, str_eqb_refl. cbn [andb].
+           destruct (Nat.eqb p0 p) eqn:E; [apply Nat.eqb_eq in E; lia|]. exact Hc.
+    + inversion Hs; subst t'. rewrite ct_get_insert_same. split; [left; reflexivity|]. split.
+      * intros p' a' [E|H']; [inversion E; lia|]. exfalso. apply (Hinv _ _ H').
+      * rewrite count_np_cons, str_eqb_refl, Nat.eqb_refl. cbn [andb].
+        rewrite count_np_zero; [reflexivity|]. intros a' H'. apply (Hinv _ _ H').
+  - assert (Eg : ct_get t' n = ct_get t n).
+    { destruct (ct_get t n0) as [[a1 p1]|].
+      - destruct (p0 <? p1)%nat.
+        + inversion Hs; subst. apply ct_get_insert_other. exact En.
+        + destruct (p1 <? p0)%nat; [inversion Hs; subst; reflexivity|discriminate].
+      - inversion Hs; subst. apply ct_get_insert_other. exact En. }
+    rewrite Eg. specialize (Hinv n). destruct (ct_get t n) as [[a p]|].
+    + destruct Hinv as [Hin [Hmin Hc]]. split; [right; exact Hin|]. split.
+      * intros p' a' [E|H']; [inversion E; subst; contradiction|]. apply (Hmin _ _ H').
+      * rewrite count_np_cons. destruct (str_eqb n0 n) eqn:E; [apply str_eqb_eq in E; contradiction|].
+        cbn [andb]. exact Hc.
+    + intros p a [E|H']; [inversion E; subst; contradiction|]. apply (Hinv _ _ H').
+Qed.
+
+Lemma select_from_inv : forall l done t t',
+  tbl_inv done t -> select_from l t = ROk t' -> tbl_inv (rev l ++ done) t'.
+Proof.
+  induction l as [|e l IH]; intros done t t' Hinv H; cbn [select_from] in H.
+  - inversion H; subst. exact Hinv.
+  - destruct (select_step t e) as [t1|] eqn:S; [|discriminate].
+    cbn [rev]. rewrite <- app_assoc. cbn [app]. eapply IH; [|exact H].
+    eapply select_step_inv; eassumption.
+Qed.
+
+Lemma select_components_inv : forall l t, select_components l = ROk t -> tbl_inv l t.
+Proof.
+  intros l t H. unfold select_components in H.
+  assert (I0 : tbl_inv [] ([] : ctable A)) by (intros n p a; cbn; auto).
+  assert (I := select_from_inv l [] ([] : ctable A) t I0 H). rewrite app_nil_r in I.
+  eapply tbl_inv_perm; [|exact I]. apply Permutation_sym. apply Permutation_rev.
+Qed.
+
+Lemma select_from_err : forall l t e, @select_from A l t = RErr e -> e = ErrMsg.
+Proof.
+  induction l as [|[[n0 p0] a0] l IH]; intros t e H; cbn [select_from] in H; [discriminate|].
+  destruct (select_step t (n0, p0, a0)) as [t1|e1] eqn:S; [eapply IH; exact H|].
+  inversion H; subst. unfold select_step in S.
+  destruct (ct_get t n0) as [[a1 p1]|]; [|discriminate].
+  destruct (p0 <? p1)%nat; [discriminate|]. destruct (p1 <? p0)%nat; [discriminate|].
+  inversion S. reflexivity.
+Qed.
+
+(* accepted: per name the kept definition is one that was offered, has minimal priority index,
+   is the only one at that index; names never offered are absent *)
+Lemma priority_selection_ok : forall (l : list entry) (t : ctable A),
+  select_components l = ROk t ->
+  forall n,
+    match ct_get t n with
+    | Some (a, p) =>
+        In (n, p, a) l /\ (forall p' a', In (n, p', a') l -> (p <= p')%nat) /\
+        (forall a', In (n, p, a') l -> a' = a) /\ count_np n p l = 1%nat
+    | None => forall p a, ~ In (n, p, a) l
+    end.
+Proof.
+  intros l t H n. assert (I := select_components_inv l t H n).
+  destruct (ct_get t n) as [[a p]|]; [|exact I].
+  destruct I as [H1 [H2 H3]]. split; [exact H1|]. split; [exact H2|]. split; [|exact H3].
+  intros a' H'. eapply count_one_unique; eassumption.
+Qed.
+
+(* the table does not depend on the order in which the definitions are met *)
+Lemma priority_order_independent : forall (l l' : list entry) (t t' : ctable A),
+  Permutation l l' -> select_components l = ROk t -> select_components l' = ROk t' ->
+  forall n, ct_get t n = ct_get t' n.
+Proof.
+  intros l l' t t' P H H' n.
+  assert (I := select_components_inv l t H n).
+  assert (I' := tbl_inv_perm l' l t' (Permutation_sym P) (select_components_inv l' t' H') n).
+  destruct (ct_get t n) as [[a p]|]; destruct (ct_get t' n) as [[a' p']|].
+  - destruct I as [H1 [H2 H3]]. destruct I' as [H1' [H2' H3']].
+    assert (p = p') by (specialize (H2 _ _ H1'); specialize (H2' _ _ H1); lia). subst p'.
+    rewrite (count_one_unique n p a a' l H3 H1 H1'). reflexivity.
+  - destruct I as [H1 _]. exfalso. apply (I' _ _ H1).
+  - destruct I' as [H1 _]. exfalso. apply (I _ _ H1).
+  - reflexivity.
+Qed.
+
+(* two definitions of one name at its best priority: rejected, wherever they stand in the list *)
+Lemma priority_duplicate_rejected : forall (l : list entry) n p a a' l1 l2 l3,
+  l = l1 ++ (n, p, a) :: l2 ++ (n, p, a') :: l3 ->
+  (forall p' x, In (n, p', x) l -> (p <= p')%nat) ->
+  @select_components A l = RErr ErrMsg.
+Proof.
+  intros l n p a a' l1 l2 l3 E Hmin.
+  destruct (select_components l) as [t|e] eqn:S.
+  - exfalso. assert (I := select_components_inv l t S n).
+    assert (Hin : In (n, p, a) l) by (subst l; apply in_or_app; right; left; reflexivity).
+    destruct (ct_get t n) as [[a0 p0]|]; [|apply (I _ _ Hin)].
+    destruct I as [H1 [H2 H3]].
+    assert (p0 = p) by (specialize (Hmin _ _ H1); specialize (H2 _ _ Hin); lia). subst p0.
+    subst l. rewrite count_np_app, count_np_cons, count_np_app, count_np_cons in H3.
+    rewrite str_eqb_refl, Nat.eqb_refl in H3. cbn [andb] in H3. lia.
+  - f_equal. eapply select_from_err. exact S.
+Qed.
+
+End Prio.
+
+(* Whether a set with two equal-priority definitions SHADOWED by a better one is rejected depends
+   on the visiting order (finalize_templates visits templates in sorted name order, so it
+   depends on how the names sort): rejection is not a function of the set of definitions. *)
+Lemma priority_rejection_depends_on_order :
+  exists l l' : list (str * nat * nat),
+    Permutation l l' /\ (exists t, select_components l = ROk t) /\ select_components l' = RErr ErrMsg.
+Proof.
+  exists [([88]%N, 0, 0); ([88]%N, 1, 1); ([88]%N, 1, 2)]%nat,
+         [([88]%N, 1, 1); ([88]%N, 1, 2); ([88]%N, 0, 0)]%nat.
+  split.
+  - apply Permutation_trans with (l' := [([88]%N, 1, 1); ([88]%N, 0, 0); ([88]%N, 1, 2)]%nat).
+    + apply perm_swap.
+    + apply perm_skip. apply perm_swap.
+  - split; [eexists; vm_compute; reflexivity|vm_compute; reflexivity].
+Qed.
+
+(* get_template_priority: 0 when no prefix matches, else 1 + the index of the first that does *)
+Lemma priority_from_spec : forall prefixes name i0,
+  match priority_from prefixes name i0 with
+  | O => forall p, In p prefixes -> starts_with name p = false
+  | S k => exists j p, k = (i0 + j)%nat /\ nth_error prefixes j = Some p /\ starts_with name p = true /\
+                       forall j' p', (j' < j)%nat -> nth_error prefixes j' = Some p' -> starts_with name p' = false
+  end.
+Proof.
+  induction prefixes as [|q t IH]; intros name i0; cbn [priority_from].
+  - intros p [].
+  - destruct (starts_with name q) eqn:E.
+    + exists 0%nat, q. split; [lia|]. split; [reflexivity|]. split; [exact E|]. intros j' p' Hlt. lia.
+    + specialize (IH name (S i0)). destruct (priority_from t name (S i0)) as [|k].
+      * intros p [Hp|Hp]; [subst; exact E|apply IH; exact Hp].
+      * destruct IH as [j [p [Ek [Hn [Hs Hb]]]]]. exists (S j), p. split; [lia|]. split; [exact Hn|].
+        split; [exact Hs|]. intros [|j'] p' Hlt Hn'.
+        -- cbn in Hn'. inversion Hn'; subst. exact E.
+        -- cbn in Hn'. apply (Hb j' p'); [lia|exact Hn'].
+Qed.
+
+(* ------------------------------------------------------------------ recursion depth *)
+
+Definition depth_of (st : list frame) : nat := match st with (_, d) :: _ => d | [] => 0%nat end.
+
+Inductive wf_stack (api : bool) : list frame -> Prop :=
+| wf_nil : wf_stack api []
+| wf_root : wf_stack api (init_stack api)
+| wf_comp : forall d st, wf_stack api st -> st <> [] -> depth_of st = d -> (S d <= max_depth)%nat ->
+                         wf_stack api ((FComp, S d) :: st)
+| wf_incl : forall d st, wf_stack api st -> st <> [] -> depth_of st = d -> wf_stack api ((FIncl, d) :: st).
+
+Lemma wf_stack_tail : forall api f st, wf_stack api (f :: st) -> wf_stack api st.
+Proof.
+  intros api f st H. inversion H; subst; try assumption. constructor.
+Qed.
+
+Lemma step_wf : forall api st e st', wf_stack api st -> step st e = ROk st' -> wf_stack api st'.
+Proof.
+  intros api st e st' W H. destruct st as [|[k d] rest]; [discriminate|].
+  destruct e; cbn [step] in H.
+  - unfold enter_component in H. destruct (max_depth <? d + 1)%nat eqn:L; [discriminate|].
+    inversion H; subst. apply Nat.ltb_ge in L. replace (d + 1)%nat with (S d) by lia.
+    apply wf_comp; [exact W|discriminate|reflexivity|lia].
+  - inversion H; subst. apply wf_incl; [exact W|discriminate|reflexivity].
+  - inversion H; subst. eapply wf_stack_tail. exact W.
+Qed.
+
+Lemma run_wf : forall api evs st st', wf_stack api st -> run st evs = ROk st' -> wf_stack api st'.
+Proof.
+  induction evs as [|e evs IH]; intros st st' W H; cbn [run] in H.
+  - inversion H; subst. exact W.
+  - destruct (step st e) as [st1|] eqn:S; [|discriminate]. eapply IH; [|exact H]. eapply step_wf; eassumption.
+Qed.
+
+(* the counter of the running frame is the number of live called-component frames *)
+Lemma wf_depth : forall api st, wf_stack api st ->
+  depth_of st = live_calls st /\ (live_calls st <= max_depth)%nat /\
+  live_components st = (live_calls st + (if api then (match st with [] => 0 | _ => 1 end) else 0))%nat.
+Proof.
+  intros api st W. induction W as [| |d st W IH Hne Hd Hle|d st W IH Hne Hd].
+  - cbn. split; [reflexivity|]. split; [lia|]. destruct api; reflexivity.
+  - unfold init_stack. destruct api; cbn; (split; [reflexivity|]; split; [lia|reflexivity]).
+  - destruct IH as [I1 [I2 I3]]. unfold live_calls, live_components in *. cbn [filter is_called_frame is_component_frame fst length depth_of].
+    split; [rewrite <- I1, Hd; reflexivity|]. split; [rewrite <- I1, Hd; exact Hle|].
+    rewrite I3. destruct st; [contradiction|]. destruct api; lia.
+  - destruct IH as [I1 [I2 I3]]. unfold live_calls, live_components in *. cbn [filter is_called_frame is_component_frame fst length depth_of].
+    split; [rewrite <- I1; symmetry; exact Hd|]. split; [exact I2|].
+    rewrite I3. destruct st; [contradiction|]. destruct api; lia.
+Qed.
+
+Lemma depth_bounded_run : forall api evs st,
+  run (init_stack api) evs = ROk st ->
+  (live_calls st <= max_depth)%nat /\
+  (live_components st <= max_depth + (if api then 1 else 0))%nat /\
+  depth_of st = live_calls st.
+Proof.
+  intros api evs st H.
+  assert (W : wf_stack api st) by (eapply run_wf; [apply wf_root|exact H]).
+  destruct (wf_depth api st W) as [I1 [I2 I3]]. split; [exact I2|]. split; [|exact I1].
+  rewrite I3. destruct api; destruct st; lia.
+Qed.
+
+(* at the limit the next call is the error; below it the call goes through with the counter + 1 *)
+Lemma call_at_limit : forall api evs st,
+  run (init_stack api) evs = ROk st -> st <> [] ->
+  step st ECall = if (live_calls st <? max_depth)%nat then ROk ((FComp, S (live_calls st)) :: st) else RErr ErrMsg.
+Proof.
+  intros api evs st H Hne. destruct (depth_bounded_run api evs st H) as [I1 [_ I3]].
+  destruct st as [|[k d] rest]; [contradiction|]. cbn [depth_of] in I3.
+  rewrite <- I3. clear I3 I1 H Hne. rename d into n.
+  cbn [step]. unfold enter_component.
+  destruct (n <? max_depth)%nat eqn:L.
+  - apply Nat.ltb_lt in L. destruct (max_depth <? n + 1)%nat eqn:L2.
+    + apply Nat.ltb_lt in L2. lia.
+    + replace (n + 1)%nat with (S n) by lia. reflexivity.
+  - apply Nat.ltb_ge in L. destruct (max_depth <? n + 1)%nat eqn:L2; [reflexivity|].
+    apply Nat.ltb_ge in L2. lia.
+Qed.
+
+(* an include keeps the counter; a return gives back the caller's stack *)
+Lemma include_keeps_depth : forall k d rest,
+  step ((k, d) :: rest) EInclude = ROk ((FIncl, d) :: (k, d) :: rest).
+Proof. reflexivity. Qed.
+
+Lemma return_restores : forall f st, step (f :: st) EReturn = ROk st.
+Proof. intros [k d] st. reflexivity. Qed.
+
+Definition count_calls (evs : list event) : nat :=
+  length (filter (fun e => match e with ECall => true | _ => false end) evs).
+Definition no_return (evs : list event) : Prop := forall e, In e evs -> e <> EReturn.
+
+(* nesting deeper than the limit — through calls and includes in any mixture — is an error *)
+Lemma nesting_over_limit_fails : forall evs k d rest,
+  no_return evs -> (max_depth < d + count_calls evs)%nat -> (d <= max_depth)%nat ->
+  run ((k, d) :: rest) evs = RErr ErrMsg.
+Proof.
+  induction evs as [|e evs IH]; intros k d rest Hnr Hlt Hd.
+  - unfold count_calls in Hlt. cbn [filter length] in Hlt. lia.
+  - assert (Hnr' : no_return evs) by (intros x Hx; apply Hnr; right; exact Hx).
+    destruct e.
+    + cbn [run step]. unfold enter_component. destruct (max_depth <? d + 1)%nat eqn:L; [reflexivity|].
+      apply Nat.ltb_ge in L. apply IH; [exact Hnr'| |lia].
+      unfold count_calls in *. cbn [filter length] in Hlt. lia.
+    + cbn [run step]. unfold enter_include. apply IH; [exact Hnr'| |exact Hd].
+      unfold count_calls in *. cbn [filter] in Hlt. exact Hlt.
+    + exfalso. apply (Hnr EReturn); [left; reflexivity|reflexivity].
+Qed.
+
+(* ------------------------------------------------------------------ API entry vs call site *)
+
+Lemma collect_unknown_ext : forall d keys g1 g2 rm u,
+  (forall k, g1 k = g2 k) -> collect_unknown d keys g1 rm u = collect_unknown d keys g2 rm u.
+Proof.
+  intros d. induction keys as [|k t IH]; intros g1 g2 rm u H; cbn [collect_unknown]; [reflexivity|].
+  destruct (declared d k); [apply IH; exact H|].
+  destruct (def_rest d); [|apply IH; exact H].
+  rewrite (H k). destruct (g2 k); [apply IH; exact H|reflexivity].
+Qed.
+
+Lemma bind_params_ext : forall ps g1 g2 c,
+  (forall k, g1 k = g2 k) -> bind_params ps g1 c = bind_params ps g2 c.
+Proof.
+  induction ps as [|p t IH]; intros g1 g2 c H; cbn [bind_params]; [reflexivity|].
+  rewrite (H (p_name p)). destruct (g2 (p_name p)) as [v|].
+  - destruct (arg_type_matches p v); [apply IH; exact H|reflexivity].
+  - destruct (p_default p); [apply IH; exact H|reflexivity].
+Qed.
+
+Lemma build_context_ext : forall d keys g1 g2 body,
+  (forall k, g1 k = g2 k) -> build_context d keys g1 body = build_context d keys g2 body.
+Proof.
+  intros. unfold build_context.
+  rewrite (collect_unknown_ext d keys g1 g2 [] [] H), (bind_params_ext (def_params d) g1 g2 [] H). reflexivity.
+Qed.
+
+(* the kwargs map a call site builds from plain name=value attributes *)
+Definition kwargs_of (o : bool) (s : ctx) : kmap := map (fun kv => (KStr (fst kv) o, snd kv)) s.
+
+Lemma str_keys_kwargs_of : forall o s, str_keys (kwargs_of o s) = ctx_keys s.
+Proof. intros o. induction s as [|[k v] s IH]; cbn; [reflexivity|]. f_equal. exact IH. Qed.
+
+Lemma kw_get_kwargs_of : forall o s k, kw_get (kwargs_of o s) k = ctx_get s k.
+Proof.
+  intros o. induction s as [|[k0 v] s IH]; intros k; cbn; [reflexivity|].
+  destruct (str_eqb k0 k); [reflexivity|apply IH].
+Qed.
+
+Lemma api_equals_call_lemma : forall (A : Type) d (ch : A) supplied body depth ovr ae o,
+  match api_component_call d ch supplied body ae,
+        vm_component_call d ch (VMap (kwargs_of o supplied)) (option_map (fun s => VStr s false) body) depth ovr with
+  | ROk fa, ROk fv =>
+      fr_ctx fa = fr_ctx fv /\ fr_chunk fa = fr_chunk fv /\
+      fr_depth fa = 0%nat /\ fr_depth fv = S depth /\ fr_override fa = Some ae /\ fr_override fv = ovr
+  | ROk _, RErr e => e = ErrMsg /\ (max_depth < S depth)%nat     (* only the depth check separates them *)
+  | RErr ea, RErr ev => ea = ErrMsg /\ ev = ErrRender            (* the arguments were rejected *)
+  | RErr _, ROk _ => False
+  end.
+Proof.
+  intros A d ch supplied body depth ovr ae o. unfold api_component_call, vm_component_call.
+  rewrite str_keys_kwargs_of.
+  rewrite (build_context_ext d (ctx_keys supplied) (kw_get (kwargs_of o supplied)) (ctx_get supplied) _
+             (kw_get_kwargs_of o supplied)).
+  replace (option_map mark_safe (option_map (fun s => VStr s false) body))
+    with (option_map (fun s => VStr s true) body) by (destruct body; reflexivity).
+  fold (build_context_of d supplied (option_map (fun s => VStr s true) body)).
+  destruct (build_context_of d supplied (option_map (fun s => VStr s true) body)) as [c|e] eqn:B.
+  - cbn [wrap_err]. unfold enter_component. destruct (max_depth <? depth + 1)%nat eqn:L.
+    + split; [reflexivity|]. apply Nat.ltb_lt in L. lia.
+    + cbn. replace (depth + 1)%nat with (S depth) by lia. repeat split; reflexivity.
+  - apply build_context_of_err in B. subst e. cbn. split; reflexivity.
+Qed.
